@@ -6,7 +6,6 @@ SPEC = {
         {"pkg": "internal/corerad", "test": "TestVerifC10RX", "newgo": True, "timeout": {"quick": 400, "thorough": 1500}, "corr_module": "Corr.C10td"},
         {"pkg": "internal/system", "test": "TestVerifC10dial", "newgo": True, "timeout": 1500, "corr_module": "Corr.C10dial"},
         {"pkg": "internal/system", "test": "TestVerifC10link", "newgo": True, "timeout": 900, "corr_module": "Corr.C10link"},
-        {"pkg": "internal/corerad", "test": "TestVerifC20Ready", "newgo": True, "timeout": 300},
     ],
     "rule": "(a) every fault class {read error: syscall / permission / other, 5 consecutive timeouts, failing scheduled write: "
             "syscall / permission / other, link event, watcher channel closed} injected into a running Advertiser and Monitor "
